@@ -671,8 +671,140 @@ fn to_wide(lo: u128, hi: u128) -> Wide {
 
 // ------------------------------------------------------------------------------------------
 
+/// the encoded surface as a function of the byte position (nothing is materialised): `Read + Seek`
+struct VirtualSurface<'a> {
+    spec: &'a Spec,
+    unit_bytes: usize,
+    len: u64,
+    pos: u64,
+}
+impl std::io::Read for VirtualSurface<'_> {
+    fn read(&mut self, buf: &mut [u8]) -> std::io::Result<usize> {
+        let n = (buf.len() as u64).min(self.len.saturating_sub(self.pos)) as usize;
+        for (k, b) in buf[..n].iter_mut().enumerate() {
+            let p = self.pos + k as u64;
+            let u = self.spec.unit(p / self.unit_bytes as u64, 8 * self.unit_bytes);
+            *b = u.to_le_bytes()[(p % self.unit_bytes as u64) as usize];
+        }
+        self.pos += n as u64;
+        Ok(n)
+    }
+}
+impl std::io::Seek for VirtualSurface<'_> {
+    fn seek(&mut self, to: std::io::SeekFrom) -> std::io::Result<u64> {
+        let np = match to {
+            std::io::SeekFrom::Start(p) => p as i128,
+            std::io::SeekFrom::Current(d) => self.pos as i128 + d as i128,
+            std::io::SeekFrom::End(d) => self.len as i128 + d as i128,
+        };
+        if np < 0 || np > u64::MAX as i128 {
+            return Err(std::io::Error::new(std::io::ErrorKind::InvalidInput, "seek out of range"));
+        }
+        self.pos = np as u64;
+        Ok(self.pos)
+    }
+}
+
+/// `V <format> <channels> <prec> <W> <H> <ox> <oy> <rw> <rh> <spec>`: a window of a surface of ANY size (more than
+/// 2^32 pixels included) whose encoded bytes are a function of the position; one-pixel-per-unit formats only.
+/// Result: `ok` + the channels of the window's pixels. Oracle: every pixel is the ideal value of ITS OWN encoded
+/// unit (unit index y*W + x computed in u64 / u128), and the reader ends at the end of the surface. Seed C04j.
+fn run_v(t: &[&str]) -> Option<(String, Vec<String>)> {
+    if t.len() != 11 {
+        return None;
+    }
+    let tab = table();
+    let fm = tab.iter().find(|f| f.name == t[1])?;
+    let chans = ch_parse(t[2])?;
+    let prec = p_u32(t[3])?;
+    let precision = prec_of(prec)?;
+    let (sw, sh) = (p_u64(t[4])?, p_u64(t[5])?);
+    let (ox, oy, rw, rh) = (p_u64(t[6])?, p_u64(t[7])?, p_u64(t[8])?, p_u64(t[9])?);
+    let spec = Spec::parse(t[10])?;
+    if fm.planar.is_some() || fm.ppu != 1 || sw == 0 || sh == 0 || sw > u32::MAX as u64 || sh > u32::MAX as u64 {
+        return None;
+    }
+    if rw == 0 || rh == 0 || rw * rh > 4096 || ox + rw > sw || oy + rh > sh {
+        return None;
+    }
+    let len = (sw as u128 * sh as u128 * fm.unit_bytes as u128).min(u64::MAX as u128) as u64;
+    if sw as u128 * sh as u128 * fm.unit_bytes as u128 > i64::MAX as u128 {
+        return None;
+    }
+    let color = ColorFormat::new(chans, precision);
+    let bpp = color.bytes_per_pixel() as usize;
+    let nch = chans.count() as usize;
+    let mut out = vec![0xA5u8; (rw * rh) as usize * bpp];
+    let view = ImageViewMut::new(&mut out, Size::new(rw as u32, rh as u32), color)?;
+    let mut reader = VirtualSurface { spec: &spec, unit_bytes: fm.unit_bytes, len, pos: 0 };
+    let res = decode_rect(
+        &mut reader,
+        view,
+        Offset::new(ox as u32, oy as u32),
+        Size::new(sw as u32, sh as u32),
+        fm.format,
+        &DecodeOptions::default(),
+    );
+    let mut oracle = vec![];
+    if let Err(e) = res {
+        let d = format!("{e:?}");
+        let short: String = d.chars().take_while(|c| c.is_alphanumeric()).collect();
+        return Some((format!("err {short}"), vec![format!("decode_rect failed: {d}")]));
+    }
+    if reader.pos != len {
+        oracle.push(format!("decode_rect left the reader at {} of {} bytes", reader.pos, len));
+    }
+    let bytes_per_val = bpp / nch;
+    let vals: Vec<u32> = out
+        .chunks_exact(bytes_per_val)
+        .map(|c| match bytes_per_val {
+            1 => c[0] as u32,
+            2 => u16::from_ne_bytes([c[0], c[1]]) as u32,
+            _ => u32::from_ne_bytes([c[0], c[1], c[2], c[3]]),
+        })
+        .collect();
+    let mut s = String::from("ok");
+    for &v in &vals {
+        s.push(' ');
+        if prec == 2 && is_nan(v) {
+            s.push_str("nan");
+        } else {
+            s.push_str(&format!("{v:x}"));
+        }
+    }
+    let kinds = native_comp_kinds(fm);
+    'px: for y in 0..rh {
+        for x in 0..rw {
+            let i = (oy + y) * sw + ox + x;
+            let word = to_wide(spec.unit(i, 8 * fm.unit_bytes), 0);
+            let mut ex = ideal_pixel(fm, &word, 0);
+            for (k, e) in ex.iter_mut().enumerate() {
+                e.class = class_for(fm, prec, kinds.get(k).copied().flatten(), e.class);
+            }
+            let ex = convert_expect(fm.native, chans, ex);
+            if ex.len() != nch {
+                oracle.push("channel count".into());
+                break 'px;
+            }
+            for (c, e) in ex.iter().enumerate() {
+                let o = vals[((y * rw + x) as usize) * nch + c];
+                if let Err(msg) = check_channel(o, prec, e) {
+                    oracle.push(format!("pixel ({},{}) channel {c} unit #{i}: {msg}", ox + x, oy + y));
+                    if oracle.len() > 4 {
+                        break 'px;
+                    }
+                }
+            }
+        }
+    }
+    Some((s, oracle))
+}
+
 pub fn run(line: &str) -> Option<(String, Vec<String>)> {
     let t = toks(line);
+    if t.first() == Some(&"V") {
+        return run_v(&t);
+    }
     if t.len() < 7 || t[0] != "D" {
         return None;
     }
@@ -686,7 +818,23 @@ pub fn run(line: &str) -> Option<(String, Vec<String>)> {
     if w == 0 || h == 0 || w * h > 1_048_576 {
         return None;
     }
-    let specs: Vec<Spec> = t[6..].iter().map(|s| Spec::parse(s)).collect::<Option<Vec<_>>>()?;
+    // optional trailing token `rect:<ox>:<oy>:<rw>:<rh>`: the pixels of that rectangle are taken from a RECT decode
+    // (`decode_rect` into the matching window of the output), all others from the full decode. The ideal value of a
+    // pixel does not depend on how it was asked for, so result and oracle are those of the plain case (seeds C04i/j).
+    let mut rect: Option<(usize, usize, usize, usize)> = None;
+    let mut spec_toks: Vec<&str> = vec![];
+    for s in &t[6..] {
+        if let Some(r) = s.strip_prefix("rect:") {
+            let v: Vec<usize> = r.split(':').map(|x| x.parse::<usize>().ok()).collect::<Option<Vec<_>>>()?;
+            if v.len() != 4 || v[2] == 0 || v[3] == 0 || v[0] + v[2] > w || v[1] + v[3] > h {
+                return None;
+            }
+            rect = Some((v[0], v[1], v[2], v[3]));
+        } else {
+            spec_toks.push(s);
+        }
+    }
+    let specs: Vec<Spec> = spec_toks.iter().map(|s| Spec::parse(s)).collect::<Option<Vec<_>>>()?;
     if specs.len() != if fm.planar.is_some() { 2 } else { 1 } {
         return None;
     }
@@ -728,6 +876,30 @@ pub fn run(line: &str) -> Option<(String, Vec<String>)> {
     }
     if reader.position() as usize != data.len() {
         oracle.push(format!("consumed {} of {} bytes", reader.position(), data.len()));
+    }
+    if let Some((ox, oy, rw, rh)) = rect {
+        for y in oy..oy + rh {
+            out[(y * w + ox) * bpp..(y * w + ox + rw) * bpp].fill(0xA5);
+        }
+        let start = (oy * w + ox) * bpp;
+        let window = ImageViewMut::new_with(&mut out[start..], w * bpp, Size::new(rw as u32, rh as u32), color)?;
+        let mut reader = std::io::Cursor::new(&data[..]);
+        let res = decode_rect(
+            &mut reader,
+            window,
+            Offset::new(ox as u32, oy as u32),
+            Size::new(w as u32, h as u32),
+            fm.format,
+            &DecodeOptions::default(),
+        );
+        if let Err(e) = res {
+            let d = format!("{e:?}");
+            let short: String = d.chars().take_while(|c| c.is_alphanumeric()).collect();
+            return Some((format!("err {short}"), vec![format!("decode_rect failed: {d}")]));
+        }
+        if reader.position() as usize != data.len() {
+            oracle.push(format!("decode_rect consumed {} of {} bytes", reader.position(), data.len()));
+        }
     }
     // values
     let bytes_per_val = bpp / nch;
@@ -983,6 +1155,69 @@ pub fn gen(seed: u64, thorough: bool) -> Vec<String> {
                         };
                         g.out.push(line);
                     }
+                }
+            }
+        }
+    }
+
+    // E. the same, with a window of the image taken from a RECT decode: every format, every target colour, odd and
+    // even offsets and sizes (sub-sampled / bi-planar cells cut on either side), windows touching each edge
+    {
+        let edims: &[(usize, usize)] = &[(7, 5), (8, 6), (13, 4), (16, 9), (33, 3), (5, 12)];
+        let rrounds = if thorough { 12 } else { 2 };
+        for fm in &tab {
+            for round in 0..rrounds {
+                for (di, &(w, h)) in edims.iter().enumerate() {
+                    if !thorough && (di + round) % 2 == 1 {
+                        continue;
+                    }
+                    for prec in 0..3 {
+                        let ch = if round == 0 { fm.native } else { *g.rng.pick(&all_ch) };
+                        let ch = if round == 1 && ch == fm.native { Channels::Rgba } else { ch };
+                        let rw = 1 + g.rng.below(w as u64) as usize;
+                        let rh = 1 + g.rng.below(h as u64) as usize;
+                        let (ox, oy) = match g.rng.below(4) {
+                            0 => (0, 0),
+                            1 => (w - rw, h - rh),
+                            _ => (g.rng.below((w - rw + 1) as u64) as usize, g.rng.below((h - rh + 1) as u64) as usize),
+                        };
+                        let s1 = format!("R:{}", g.rng.next() % 1_000_000);
+                        let s2 = if fm.planar.is_some() { format!(" R:{}", g.rng.next() % 1_000_000) } else { String::new() };
+                        g.out.push(format!("D {} {} {} {} {} {}{} rect:{ox}:{oy}:{rw}:{rh}", fm.name, ch_name(ch), prec, w, h, s1, s2));
+                    }
+                }
+            }
+        }
+    }
+
+    // V. windows of surfaces with more than 2^32 pixels (and some smaller ones), first pixel index below / at / above
+    // 2^32: every byte-position computation must be done in 64 bits (seed C04j). One-pixel-per-unit formats.
+    {
+        let geos: &[(u64, u64)] = &[(65536, 65540), (65537, 65536), (100000, 50000), (4294967295, 3), (3, 4294967295), (70000, 70000), (300, 200)];
+        for (i, fm) in tab.iter().filter(|f| f.planar.is_none() && f.ppu == 1).enumerate() {
+            for (gi, &(sw, sh)) in geos.iter().enumerate() {
+                if !thorough && (i + gi) % 3 != 0 {
+                    continue;
+                }
+                if sw as u128 * sh as u128 * fm.unit_bytes as u128 >= 1u128 << 62 {
+                    continue;
+                }
+                // windows: at the start, straddling pixel index 2^32, far behind it, at the very end
+                let row32 = (1u64 << 32) / sw;
+                let mut wins: Vec<(u64, u64, u64, u64)> = vec![(0, 0, 3, 2), (sw - 3, sh - 2, 3, 2)];
+                if row32 + 2 < sh {
+                    let rw = 4u64.min(sw);
+                    wins.push((((1u64 << 32) % sw).min(sw - rw), row32, rw, 2));
+                    let rw = 5u64.min(sw);
+                    wins.push((g.rng.below(sw - rw + 1), row32 + 1 + g.rng.below(sh - row32 - 2), rw, 1));
+                }
+                for (ox, oy, rw, rh) in wins {
+                    let prec = g.rng.below(3);
+                    let ch = if g.rng.chance(1, 2) { fm.native } else { *g.rng.pick(&all_ch) };
+                    g.out.push(format!(
+                        "V {} {} {} {} {} {} {} {} {} R:{}",
+                        fm.name, ch_name(ch), prec, sw, sh, ox, oy, rw, rh, g.rng.next() % 1_000_000
+                    ));
                 }
             }
         }
